@@ -1358,19 +1358,21 @@ class _OracleInterp(Interp):
                     vals.append(st.freeze(self.eval(x, st)))
             return K(frozenset(vals))
         if isinstance(e, ast.JoinedStr):
-            out = ""
-            for part in e.values:
+            out: Optional[str] = ""
+            for part in e.values:  # every replacement field is evaluated, also after the text is known to be undetermined: it may raise
                 if isinstance(part, ast.Constant):
-                    out += str(part.value)
-                elif isinstance(part, ast.FormattedValue) and part.format_spec is None and part.conversion in (-1, 115, 114):
+                    out = out + str(part.value) if out is not None else None
+                elif isinstance(part, ast.FormattedValue):
                     v = self.eval(part.value, st)
-                    if isinstance(v, K) and isinstance(v.v, (str, int)) and not isinstance(v.v, bool):
+                    if st.pending is not None:
+                        return U("f-string field raised")
+                    if out is not None and part.format_spec is None and part.conversion in (-1, 115, 114) and isinstance(v, K) and isinstance(v.v, (str, int)) and not isinstance(v.v, bool):
                         out += repr(v.v) if part.conversion == 114 else str(v.v)  # !r / !s / none
                     else:
-                        return U("f-string with a non-constant part")
+                        out = None
                 else:
-                    return U("f-string with format spec")
-            return K(out)
+                    out = None
+            return K(out) if out is not None else U("f-string with a non-constant part")
         if isinstance(e, ast.BinOp) and isinstance(e.op, (ast.BitAnd, ast.BitOr, ast.Mult, ast.FloorDiv, ast.Mod)):
             l, r = self.eval(e.left, st), self.eval(e.right, st)
             if isinstance(e.op, ast.Mod) and isinstance(l, K) and isinstance(l.v, str):
